@@ -10,6 +10,7 @@ import (
 
 	"github.com/dcaiafa/lox/internal/base/assert"
 	"github.com/dcaiafa/lox/internal/base/logger"
+	"github.com/dcaiafa/lox/internal/base/set"
 )
 
 const (
@@ -96,6 +97,10 @@ type Grammar struct {
 	Prods         []*Prod
 	EOFTerminal   *Terminal
 	ErrorTerminal *Terminal
+
+	// firsts caches the FIRST set of every rule (see First). It is reset
+	// whenever the grammar changes.
+	firsts map[*Rule]*set.Set[*Terminal]
 }
 
 // NewGrammar creates a new Grammar.
@@ -117,6 +122,7 @@ func NewGrammar() *Grammar {
 // derivable from the start rule, it will never be derived.
 func (g *Grammar) SetStart(rule *Rule) {
 	g.Prods[0].Terms = []Term{rule}
+	g.firsts = nil
 }
 
 // AddTerminal adds a Terminal to the grammar, and returns its symbol id.
@@ -141,6 +147,7 @@ func (g *Grammar) AddRule(name string) *Rule {
 		Name:  name,
 	}
 	g.Rules = append(g.Rules, r)
+	g.firsts = nil
 	return r
 }
 
@@ -154,6 +161,7 @@ func (g *Grammar) AddProd(rule *Rule, terms ...Term) *Prod {
 	g.Prods = append(g.Prods, p)
 	rule.Prods = append(rule.Prods, p)
 	p.Terms = append(p.Terms, terms...)
+	g.firsts = nil
 
 	return p
 }
